@@ -8,6 +8,7 @@ import WpModel.Model.Wire
 import WpModel.Model.Declarations
 import WpModel.Model.VarSubst
 import WpModel.Model.LengthC07
+import WpModel.Model.PendingC07
 
 namespace Wp.Drive.C07
 open Wp Wp.Decl
@@ -245,6 +246,29 @@ def showUnit : Option String → String
   | none => "none"
   | some u => encodeAtom u
 
+def ltok? : Sx → Option Len07.LTok
+  | .list [.atom "number", v] => v.rat?.map .number
+  | .list [.atom "dimension", v, u, l] => do pure (.dimension (← v.rat?) (← str? u) (← str? l))
+  | .list [.atom "percentage", v] => v.rat?.map .percentage
+  | .atom "other" => some .other
+  | _ => none
+
+def showSpec : Option Len07.Spec → String
+  | none => "none"
+  | some (.keyword s) => "kw " ++ encodeAtom s
+  | some (.dim v u) => "dim " ++ showRat v ++ " " ++ showUnit u
+
+def casc? : Sx → Option (Pending.Casc String)
+  | .atom "absent" => some .absent
+  | .atom "inherit" => some .inheritKw
+  | .atom "initial" => some .initialKw
+  | .atom "value" => some (.value "v")
+  | .list [.atom "pending", .atom "valid"] => some (.pending (.valid "v"))
+  | .list [.atom "pending", .atom "inherit"] => some (.pending .inheritKw)
+  | .list [.atom "pending", .atom "initial"] => some (.pending .initialKw)
+  | .list [.atom "pending", .atom "invalid"] => some (.pending .invalid)
+  | _ => none
+
 /-! ### the handler -/
 
 def handle (cmd : String) (args : List Sx) : Option String :=
@@ -345,6 +369,28 @@ def handle (cmd : String) (args : List Sx) : Option String :=
       | .keyword s => "kw " ++ encodeAtom s
       | .number q => "number " ++ showRat q ++ " " ++ relation implQ q
       | .dim q u => "dim " ++ showRat q ++ " " ++ showUnit u ++ " " ++ relation implQ q)
+  | "get-length", [neg, pct, tok] => do
+    pure (showSpec (Len07.getLength (← neg.bool?) (← pct.bool?) (← ltok? tok)))
+  -- validator (get_length with the property's flags) then computer (length): `rejected` or the computed value
+  | "length-pipeline", [neg, pct, fs, rfs, ex, ch, po, tok, impl] => do
+    let ctx : Len07.FontCtx := { fontSize := ← fs.rat?, rootFontSize := ← rfs.rat?, exRatio := ← ex.rat?,
+                                 chRatio := ← ch.rat? }
+    let implQ := impl.rat?.getD 0
+    let po ← po.bool?
+    pure (match Len07.getLength (← neg.bool?) (← pct.bool?) (← ltok? tok) with
+      | none => "rejected"
+      | some spec =>
+        match Len07.length ctx po spec with
+        | .keyword s => "kw " ++ encodeAtom s
+        | .number q => "number " ++ showRat q ++ " " ++ relation implQ q
+        | .dim q u => "dim " ++ showRat q ++ " " ++ showUnit u ++ " " ++ relation implQ q)
+  -- ComputedStyle.__missing__ selection
+  | "select", [key, hasParent, c] => do
+    pure (match Pending.select (← str? key) (← hasParent.bool?) (← casc? c) with
+      | .ok (.specified _) => "specified"
+      | .ok .parent => "parent"
+      | .ok .initial => "initial"
+      | .error f => f.render)
   -- var()
   | "check-var", [tok] => do pure (toString (Var.checkVar (← tk? tok)))
   | "parse-function", [tok] => do
